@@ -8,6 +8,7 @@ import (
 	"fmt"
 	"math/rand/v2"
 	"os"
+	"runtime"
 	"strings"
 	"sync"
 	"testing"
@@ -29,6 +30,8 @@ type e1Profile struct {
 }
 
 var e1Profiles = map[string]e1Profile{
+	"C09": {prop: "C09", attackWeight: 65, steps: [2]int{40, 60}, concurrent: true, restartPct: 2, quickCases: 400, thoroughCases: 15000,
+		rule: "E1 histories at full hostile width (every height/round offset -3..+3, every key-id length, every commit-proof shape, replays, state-machine entrances and actions), sequential then 2-6 concurrent deliverers, with stalled gossip/state-machine readers; two thirds of the messages go through the shipped AcceptAllValid/DropDuplicate feedback mappers. Monitors: hook Catch on the kernel goroutine and recover around every Handle* call (panic => violation keyed by site), logical livelock bound on HandleProposedHeader's restart label, defined-result and defined-feedback checks, liveness probe (VotingView must answer after every input). Non-trivial = distinct histories with >= 10 hostile messages handled."},
 	"C01": {prop: "C01", attackWeight: 45, steps: [2]int{30, 60}, concurrent: true, restartPct: 2, quickCases: 240, thoroughCases: 12000,
 		rule: "E1 histories (honest rounds, nil/split/jump rounds, replays, hostile proposals/votes/replays at offsets -3..+3 around the node's position, state-machine entrances and actions, restarts), sequential then concurrent phase; every commit event (SaveCommittedHeader, new committing view, accepted replay, RoundEntranceResponse.CH) judged by (a) crypto/ed25519 re-verification of the held certificate under the harness-prescribed validator set and (b) the ledger of valid precommits ever delivered. Non-trivial = distinct history digests with >= 1 commit event judged."},
 	"C04": {prop: "C04", attackWeight: 50, steps: [2]int{30, 60}, concurrent: true, restartPct: 4, quickCases: 240, thoroughCases: 12000,
@@ -102,6 +105,7 @@ func runE1Case(r *verifkit.Run, pf e1Profile, id string, rng *rand.Rand) map[str
 		return cs.counter
 	}
 	defer n.stop()
+	n.useMappers = pf.prop == "C09"
 	g := newGen(n, rng)
 	g.attackWeight = pf.attackWeight
 	mo := newMonitors(n)
@@ -118,8 +122,17 @@ func runE1Case(r *verifkit.Run, pf e1Profile, id string, rng *rand.Rand) map[str
 			cs.count("panic." + key)
 			cs.violate("C09", "C09:"+key, "mirror goroutine panicked: "+msg, map[string]any{"stack": stack})
 		} else {
+			// The kernel did not answer a snapshot request within the generous call
+			// timeout and did not panic. Ask once more before calling it wedged.
+			if _, _, ok := n.views(); ok {
+				cs.count("slow-answer-recovered")
+				return true
+			}
 			cs.logf("NODE NOT ANSWERING")
 			cs.count("not-answering")
+			buf := make([]byte, 1<<20)
+			buf = buf[:runtime.Stack(buf, true)]
+			cs.violate("C09", "C09:mirror-stopped-serving", "the mirror kernel did not answer two consecutive view requests (60 s each) and did not panic", map[string]any{"goroutines": string(buf)})
 		}
 		n.stop()
 		restarts++
@@ -154,6 +167,15 @@ func runE1Case(r *verifkit.Run, pf e1Profile, id string, rng *rand.Rand) map[str
 			cs.count("restart.clean")
 			mo.havePos = false
 		}
+		if pf.prop == "C09" || pf.prop == "C11" {
+			// readers of the two view channels stall and resume
+			if rng.IntN(8) == 0 {
+				n.gossipPaused.Store(!n.gossipPaused.Load())
+			}
+			if rng.IntN(8) == 0 {
+				n.smPaused.Store(!n.smPaused.Load())
+			}
+		}
 		g.step()
 		if !mo.afterStep() {
 			alive = handleDeath()
@@ -162,6 +184,8 @@ func runE1Case(r *verifkit.Run, pf e1Profile, id string, rng *rand.Rand) map[str
 			}
 		}
 	}
+	n.gossipPaused.Store(false)
+	n.smPaused.Store(false)
 
 	if alive && pf.prop == "C06" {
 		// progress to a fresh round first, then let only a minority speak
@@ -253,6 +277,8 @@ func runE1Case(r *verifkit.Run, pf e1Profile, id string, rng *rand.Rand) map[str
 		nontrivial = mo.multiTarget >= 1
 	case "C07":
 		nontrivial = top >= w.initH && mo.setChanges >= 1 && g.forgedCopies >= 1
+	case "C09":
+		nontrivial = g.attacks >= 10
 	}
 	if nontrivial {
 		h := sha256.New()
